@@ -194,6 +194,7 @@ fn do_run(
 fn check_settled(
   out: &mut CaseOutcome,
   world: &World,
+  sem: &SemOpts,
   run: &RunData,
   ctx: &Value,
 ) -> bool {
@@ -281,6 +282,64 @@ fn check_settled(
           "loader was asked for {} (answered {}) but the graph has neither an entry nor a redirect for it",
           l.id.label(),
           l.answer
+        ),
+        ctx.clone(),
+      );
+      return false;
+    }
+  }
+  // every redirect of the graph was made by somebody: the loader (a redirect
+  // answer or a response naming another final specifier), the lockfile, or
+  // the resolution of a `jsr:` specifier to a file of a package
+  for (from, to) in &shape.redirects {
+    let by_loader = run.loads.iter().any(|l| {
+      l.id.url == *from && l.final_url.as_deref() == Some(to.as_str())
+    });
+    let by_lockfile = world.lockfile.redirects.get(from) == Some(to);
+    let by_registry = from.starts_with("jsr:")
+      && to.starts_with(REGISTRY)
+      && !to.ends_with('/');
+    if !(by_loader || by_lockfile || by_registry) {
+      out.violation(
+        "C03",
+        "failure-stored-under-the-affected-specifier",
+        format!(
+          "redirect-nobody-made:{}",
+          if to.ends_with('/') { "to-package-directory" } else { "other" }
+        ),
+        format!(
+          "the graph redirects {} to {} although neither the loader nor the lockfile nor a jsr resolution said so",
+          from, to
+        ),
+        ctx.clone(),
+      );
+      return false;
+    }
+  }
+  // a root is requested as what the caller said it is: the loader is told
+  // "in a dynamic branch" for it only when the build was started as a
+  // dynamic root - in every pass, also the one after a cache-busting restart
+  for l in &run.loads {
+    // (a root that kept its own entry was only ever requested as a root: an
+    // existing or in-flight entry suppresses every other request for it)
+    if !l.id.ensure
+      && shape.roots.contains(&l.id.url)
+      && shape.slots.contains_key(&l.id.url)
+      && !shape.redirects.contains_key(&l.id.url)
+      && l.in_dynamic_branch != sem.is_dynamic
+    {
+      out.violation(
+        "C03",
+        "unaffected-modules-loaded-as-without-the-failure",
+        format!(
+          "root-requested-with-wrong-dynamic-flag:{}",
+          if l.id.nth >= 1 { "after-restart" } else { "first-pass" }
+        ),
+        format!(
+          "root {} was requested with in_dynamic_branch = {} (the build's dynamic-root option is {})",
+          l.id.label(),
+          l.in_dynamic_branch,
+          sem.is_dynamic
         ),
         ctx.clone(),
       );
@@ -841,7 +900,23 @@ fn small_world(tape: &mut Tape) -> World {
     let mut cfg = RegGenCfg::full();
     cfg.max_packages = 2;
     cfg.max_versions = 3;
-    gen_registry_world(tape, &cfg)
+    let mut w = gen_registry_world(tape, &cfg);
+    if tape.draw(Stream::World, 8) == 7 {
+      // inconsistent metadata: an export value that cannot be joined onto
+      // the package url
+      let bad = *tape.pick(Stream::World, &["//", "https://", "http://["]);
+      if let Some(pv) = w
+        .registry
+        .packages
+        .values_mut()
+        .next()
+        .and_then(|p| p.versions.values_mut().next_back())
+      {
+        pv.exports = Exports::Single(bad.to_string());
+      }
+      w.render_registry(&crate::checks::worlds::embed_info);
+    }
+    w
   } else {
     let mut cfg = GenCfg::basic();
     cfg.max_modules = 6;
@@ -928,7 +1003,7 @@ pub fn run_case(tape: &mut Tape, tier: Tier, p: &CaseParams) -> CaseOutcome {
   add_summary(&mut out, &base.summary, &base_sched);
   let wh = world_hash(&world);
   let ctx0 = json!({"plan": [], "sem": sem, "world": world.to_json()});
-  if !check_settled(&mut out, &world, &base, &ctx0) {
+  if !check_settled(&mut out, &world, &sem, &base, &ctx0) {
     return out;
   }
   let reqs: Vec<LoadRecord> = base.loads.clone();
@@ -982,7 +1057,7 @@ pub fn run_case(tape: &mut Tape, tier: Tier, p: &CaseParams) -> CaseOutcome {
       "world": world.to_json(),
     });
     let before = out.violations.len();
-    if check_settled(out, &world, &run, &ctx) {
+    if check_settled(out, &world, &sem, &run, &ctx) {
       check_faulted(out, &world, &base, &run, &plan, &ctx);
     }
     if let Some(t) = replay_as {
